@@ -750,6 +750,10 @@ def op_define_unit(w, op):
     reg = w.handle(op, node)
     if op.get("form") == "quantity":
         value = _mkq(w, reg, op["v"], op["s"])
+    elif op.get("form") == "quantity_default":
+        # the documented idiom define_unit("code_mass", 1e10*unyt.Msun, registry=reg): the value lives in the
+        # default registry, the definition must land in reg
+        value = _mkq(w, ur.default_unit_registry, op["v"], op["s"])
     else:
         value = (op["v"], op["s"])
     kw = {}
@@ -891,7 +895,10 @@ def cold_eval(req):
             try:
                 nw = next(n for n in req["nodes"] if n["id"] == node.id)
                 reg2, _ = build_registry(dict(nw, usys="mks"))
-                q = unyt.unyt_quantity(op["v"], op["s"], registry=reg2)
+                if op.get("form") == "quantity_default":
+                    q = unyt.unyt_quantity(op["v"], op["s"])
+                else:
+                    q = unyt.unyt_quantity(op["v"], op["s"], registry=reg2)
                 out["expected"] = [float(q.in_base("mks").value), str(q.units.dimensions)]
             except Exception as e:
                 if harness_frame(e.__traceback__):
@@ -984,6 +991,7 @@ class GlobalSnapshot:
                         )
                         self._snap_unit(f"{modname}.{name}.units", obj.units)
         self.usys = dict(us.unit_system_registry)
+        self.names = {(modname, name) for _ns, modname, name, _o in self.bindings}
 
     def _snap_unit(self, label, u):
         if id(u) not in self.units:
@@ -1015,4 +1023,11 @@ class GlobalSnapshot:
         for k, v in self.usys.items():
             if us.unit_system_registry.get(k) is not v:
                 problems.append(("unit-system-replaced", k))
+        for modname, mod in sorted(self.mods.items()):
+            for name, obj in sorted(vars(mod).items()):
+                if (modname, name) in self.names or name in allowed_new:
+                    continue
+                if isinstance(obj, (uo.Unit, unyt.unyt_array)):
+                    # only define_unit / add on the DEFAULT registry may export a new name
+                    problems.append(("export-new-name", f"{modname}.{name}"))
         return problems
